@@ -17,7 +17,7 @@ class C14(Prop):
     level_note = 'Trusted: Lean kernel + standard axioms; datetime arithmetic; the virtual clock patches rsocket.lease.datetime.'
     design_ref = '§5 C14'
     rule = ('sequences of LEASE frames (count 0..5, ttl 0..400 ms) and requests of the four request types at non-decreasing virtual times (incl. exactly at expiry), queue size 0/1/3, with '
-            'and without fragmentation, and reconnects in between (each connection starts without a lease); responder (a server, or a client that grants leases): published leases with counts and time-to-live from 1 ms to the 31-bit maximum incl. sub-second parts, whole days and more than a day; non-trivial = a request was held and later released, refused, or '
+            'and without fragmentation, and reconnects in between (each connection starts without a lease), on a client that may also grant leases of its own to the peer at any moment; responder (a server, or a client that grants leases): published leases with counts and time-to-live from 1 ms to the 31-bit maximum incl. sub-second parts, whole days and more than a day; non-trivial = a request was held and later released, refused, or '
             'sent under a lease close to expiry; distinct = distinct history')
     assumptions = ['whole-millisecond time-to-live values']
 
@@ -44,7 +44,14 @@ class C14(Prop):
                     last_lease = (t, ttl)
                 else:
                     evs.append(['R', rng.choice(['rr', 'fnf', 'stream', 'channel']), t])
-            out.append({'kind': 'req', 'cap': rng.choice([0, 0, 1, 3]), 'frag': rng.choice([None, None, 64]), 'evs': evs})
+            own = rng.random() < 0.3
+            if own:
+                # the client's own grants to its peer, at moments of their own (before the peer's first LEASE, after its lease is used up or expired ...)
+                times = sorted({rng.randint(0, max(1, t)) for _ in range(rng.randint(1, 3))} - {e[-1] for e in evs})
+                for tm in times:
+                    evs.append(['O', rng.choice([1, 5, 100]), rng.choice([1000, 60000, 10 ** 7]), tm])
+                evs.sort(key=lambda e: e[-1])
+            out.append({'kind': 'req', 'cap': rng.choice([0, 0, 1, 3]), 'frag': rng.choice([None, None, 64]), 'evs': evs, 'own': own})
         for _ in range(n // 5):
             out.append({'kind': 'announce', 'role': rng.choice(['server', 'server', 'client']), 'leases': [[rng.choice([0, 1, 7, 2 ** 31 - 1]), rng.choice([1000, 2_500_000, 500_000, 1_500_000, 60_000_000, 999_000, 86_399_999_000, 86_400_000_000, 86_405_000_000, 172_800_000_000, 266_400_017_000,
                                                                                                    2_147_483_647_000, rng.randint(1, 2_147_483_647) * 1000])] for _ in range(rng.randint(1, 3))]})
@@ -58,8 +65,13 @@ class C14(Prop):
         from rsocket import frame as F
         from asyncio import QueueFull
         nx = len([e for e in case['evs'] if e[0] == 'X'])
+        class OwnPub:
+            """the client grants leases itself as well (it is also a responder): what it grants its peer must not open its own gate"""
+            def subscribe(self, s):
+                self.s = s
+        own = OwnPub() if case.get('own') else None
         R = clientrun.ClientRun(loop, n_transports=1 + nx, ka_ms=10_000_000, life_ms=100_000_000, honor_lease=True, request_queue_size=case['cap'],
-                                fragment_size_bytes=case['frag'])
+                                fragment_size_bytes=case['frag'], **({'lease_publisher': own} if own else {}))
         c = R.build()
         await c.connect()
         await loop.settle()
@@ -82,6 +94,13 @@ class C14(Prop):
                 ti += 1
                 t = R.transports[ti]
                 model.append('X')
+                continue
+            if e[0] == 'O':
+                # the client publishes a lease of its own (granted to the peer)
+                from rsocket.lease import DefinedLease
+                if hasattr(own, 's'):
+                    own.s.on_next(DefinedLease(maximum_request_count=e[1], maximum_lease_time=timedelta(milliseconds=e[2])))
+                await loop.settle()
                 continue
             if e[0] == 'L':
                 fr = F.LeaseFrame()
